@@ -203,7 +203,7 @@ func (e *effects) failureAtomic(fn *ssa.Function) bool {
 
 func runC05(c *Ctx) {
 	p, r := c.P, c.R
-	r.Explanation = "Decides failure atomicity and well-formedness structurally: on every feasible path of RegisterPipeline, RegisterNode, RemoveNode (through removeNode/unregisterNode) ending in a non-nil error, and every path of RemovePipelineAndNodes returning false, no registry effect (assignment/delete on Broker.nodes, store to a usage record, graphMap.Store/Delete, node Close) precedes the return — interprocedurally, a failure-atomic callee whose failure is established on the path contributes nothing; the commit point graphMap.Store is reached only after validate, every node lookup, linking, structural validation (with a nil parent) and the overwrite test succeeded; Pipeline.validate's four conditions each force a non-nil result and the all-clear path returns nil; the full decision table of the structural validator's per-node step; IsAnyPipelineRegistered. Equivalence of the composed recursive predicate with the specification over all type sequences is not decided. One recorded known finding: RemoveNode returns the Close error after the node was unregistered and closed. C05.map: graphMap.Store/Delete forward their arguments unconditionally. C05.section (one critical section) and C05.policy (the policy consulted is the same-id entry's only). C05.recover: a recovering function returns its result variables as they stand; the closure stores the error and the `removed` flag. C05.store-validated: every store into the pipeline map stores a validated chain. C05.wellformed: a node in use is not unregistered without force."
+	r.Explanation = "Decides failure atomicity and well-formedness structurally: on every feasible path of RegisterPipeline, RegisterNode, RemoveNode (through removeNode/unregisterNode) ending in a non-nil error, and every path of RemovePipelineAndNodes returning false, no registry effect (assignment/delete on Broker.nodes, store to a usage record, graphMap.Store/Delete, node Close) precedes the return — interprocedurally, a failure-atomic callee whose failure is established on the path contributes nothing; the commit point graphMap.Store is reached only after validate, every node lookup, linking, structural validation (with a nil parent) and the overwrite test succeeded; Pipeline.validate's four conditions each force a non-nil result and the all-clear path returns nil; the full decision table of the structural validator's per-node step; IsAnyPipelineRegistered. Equivalence of the composed recursive predicate with the specification over all type sequences is not decided. One recorded known finding: RemoveNode returns the Close error after the node was unregistered and closed. C05.map: graphMap.Store/Delete forward their arguments unconditionally. C05.section (one critical section) and C05.policy (the policy consulted is the same-id entry's only). C05.recover: a recovering function returns its result variables as they stand; the closure stores the error and the `removed` flag. C05.store-validated: every store into the pipeline map stores a validated chain. C05.wellformed: a node in use is not unregistered without force. C05.exact: RegisterPipeline fails only for the six listed causes."
 	r.NotDecided = []string{"equivalence of the recursive validator + linkNodes with the specification over all node-type sequences", "insertion of a fresh empty graph by a failing RegisterPipeline is exempt by table (adds no pipeline, node or usage)"}
 	c.ruleGraphMap("", "C05.map")
 	c.ruleRecoverResults("C05.recover", []string{PkgRoot}, true)
@@ -214,6 +214,7 @@ func runC05(c *Ctx) {
 	// registered — unregisterNode refuses a non-forced removal of a node that is in use (the decision
 	// table of C06.release under C05)
 	c.ruleReleaseTableAs("C05.wellformed")
+	c.ruleRejectCauses("C05.exact")
 	// "no existing pipeline with that ID and type forbids overwriting": the policy consulted is that entry's, no other
 	c.rulePolicySource("C05.policy")
 	// the options only ever hold a valid policy: RegisterNode decides the carry-over of the in-use
